@@ -226,6 +226,7 @@ bool ops_core(World &w, const Op &o) {
     else if (o.u("v") % 7 == 2) { v = "MemoryModule"; null = false; obj = sel_obj(R, o.u("o"), 8); }   // a Misc object the importer's 2.x compatibility code looks for
     errno = 0; int rc = hwloc_obj_set_subtype(t, obj, null ? nullptr : v.c_str()); int e = errno;
     r.ev("set_subtype r%d gp=%llu -> %d", ri, (unsigned long long)obj->gp_index, rc);
+    if (!R.adopted && rc == 0 && v == "MemoryModule" && !null && !hwloc_obj_get_info_by_name(obj, "Size")) { hwloc_obj_add_info(obj, "Size", (o.u("v") & 8) ? "16GB" : "4194304KiB"); r.count("probe.memory_module_annotated"); }   // annotated the way an application describes a DIMM
     if (R.adopted) { if (rc == 0) viol0(w, "C19", "shm.modify_not_refused", "set_subtype on an adopted topology returned %d errno %d", rc, e); return true; }
     return true;
   }
